@@ -21,7 +21,8 @@ EXPLANATION = (
     'relation from the model/app rename tables when a rename follows; '
     'R-C11.4 a rename updates both ends: RenameModel/RenameField remove the '
     'old signature entry and add the clone under the new name (and '
-    'table_name for models).')
+    'table_name for models); R-C11.5 RenameAppLabel moves the models into a '
+    'signature created with app_id = the new label.')
 NOT_DECIDED = (
     'Absence of dangling references for all signatures and sequences; '
     'foreign-key validity in the database after the generated SQL.')
@@ -324,7 +325,56 @@ def r4_both_ends(ctx):
                         'place' % q, key='rename-no-clone')
 
 
+def r5_applabel_target(ctx):
+    """After RenameAppLabel the moved models must live in a signature whose
+    app_id is the new label."""
+    ctx.rule('R-C11.5')
+    p = ctx.program
+    f = p.func('mutations.rename_app_label', 'RenameAppLabel.simulate')
+    g = ctx.cfg(f)
+    from ..flow import ReachingDefs
+    rd = ReachingDefs(g, f.params)
+    moves = [(n, c) for n in g.nodes for c in n.calls()
+             if call_name(c) == 'add_model_sig']
+    if not moves:
+        ctx.finding(f, None, 'RenameAppLabel.simulate moves no models',
+                    key='no-move')
+        return
+    for n, c in moves:
+        recv = c.func.value
+        if not isinstance(recv, ast.Name):
+            ctx.finding(f, c, 'models are moved into %s' % unparse(recv))
+            continue
+        defs = rd.reaching(n, recv.id)
+        bad = [d for d in defs if not (
+            d.value is not None and isinstance(d.value, ast.Call) and
+            call_name(d.value) == 'AppSignature' and
+            kwarg(d.value, 'app_id') is not None and
+            'new_app_label' in unparse(kwarg(d.value, 'app_id')))]
+        if defs and not bad:
+            ctx.ok(f, 'moved models go into AppSignature(app_id='
+                   'new_app_label)', c)
+        else:
+            ctx.finding(f, c, 'the signature receiving the moved models can '
+                        'be %s instead of a signature created with '
+                        'app_id=new_app_label: a lookup that also matches '
+                        'legacy labels can return an app stored under '
+                        'another id, leaving every rewritten reference '
+                        '"new.Model" dangling' % (
+                            unparse(bad[0].value) if bad and
+                            bad[0].value is not None else 'undefined'),
+                        key='target-not-new-label')
+    adds = [c for n in g.nodes for c in n.calls()
+            if call_name(c) == 'add_app_sig']
+    if adds:
+        ctx.ok(f, 'the new app signature is added to the project', adds[0])
+    else:
+        ctx.finding(f, None, 'the new app signature is never added to the '
+                    'project signature', key='no-add-app-sig')
+
+
 def run(ctx):
+    r5_applabel_target(ctx)
     r1_reference_shape(ctx)
     r2_rewrite_loops(ctx)
     r3_optimiser_follows_renames(ctx)
